@@ -110,7 +110,10 @@ def _pipeline(ck, p, byk):
         sarg = st["args"][-1]
         saved_same = place_of(sarg) is not None and (place_of(sarg)[0] == dict_local or dict_local in _move_sources(f, place_of(sarg)[0]))
         nexts_out = _next_sources(f, pv, at["args"][1])
-        word_first = bool(nexts_out) and all(o[1] not in arm for o in nexts_out)
+        # the word is (derived from) an argument taken off the command's argument list before the arms split; inside the
+        # arm only conversions of it (chars(), a helper's own iterators) may call next()
+        outside = [o for o in nexts_out if o[1] not in arm]
+        word_first = bool(outside)
         ck.decide(rule, "%s:dataflow" % lit, loaded and saved_same and word_first, f.loc(at["ln"]),
                   "append_word mutates the loaded dictionary=%s; the word derives from the first command argument=%s; save receives that same dictionary value=%s" % (loaded, word_first, saved_same))
         # same url for refresh and publish (and for file-dictionary load/save)
@@ -132,7 +135,7 @@ def _pipeline(ck, p, byk):
         detail = "get_file_dict_path calls=%d, load_dict/save_dict calls=%d" % (len(gp), len(io))
         if ok:
             url_param = any(o[0] == "field" and o[3] == "url" or o[0] == "upvar" for o in gpv.trace_operand(gp[0][1]["args"][1])) or "url" in arg_fields(gpv, gp[0][1]["args"][1])
-            path_from = any(o[0] == "call" and (o[3] or "").startswith("harper_ls::backend::{impl#0}::get_file_dict_path") for o in arg_roots(g, gpv, io[0][1]["args"][0]))
+            path_from = any(o[0] == "call" and norm(o[3] or "").startswith("harper_ls::backend::{impl}::get_file_dict_path") for o in arg_roots(g, gpv, io[0][1]["args"][0]))
             ok = url_param and path_from
             detail += "; path = get_file_dict_path(url parameter)=%s/%s" % (url_param, path_from)
         ck.decide(rule, "Backend::%s:path" % n, ok, g.span, detail)
@@ -333,7 +336,7 @@ def _adopt(ck, p, byk):
         iters = [(b, t) for b in bodies for _, t in b.calls() if def_of(t).endswith("Dictionary::words_iter") or inst_of(t).endswith("::words_iter")]
         g = callgraph.CallGraph(p.snap)
         roots = [b.name for b in bodies]
-        blocked = [q for q in list(g.funcs) + list(g.ext_names) if q.endswith("::words_iter") or q.endswith("fst_dictionary::{impl#1}::curated")]
+        blocked = [q for q in list(g.funcs) + list(g.ext_names) if q.endswith("::words_iter") or norm(q).endswith("fst_dictionary::{impl}::curated")]
         par = g.reach(roots, blocked)
         lossy = sorted(q for q in par if NORMALISER.search(q))
         ck.extra["hash_dictionary_reach"] = len(par)
